@@ -9,6 +9,7 @@ import (
 	"io"
 	"testing"
 
+	proto "github.com/golang/protobuf/proto"
 	oerrors "github.com/openacid/errors"
 	"github.com/openacid/low/iohelper"
 	"github.com/openacid/low/pbcmpl"
@@ -28,13 +29,74 @@ type Case struct {
 	Sink   string  `json:"sink"`   // buffer | attowriter
 	Reader string  `json:"reader"` // whole | one | sizes | eofdata | zero | attoreader
 	Sizes  []int   `json:"sizes,omitempty"`
+	// Dest[i] (optional, parallel to Frames): what frame i is decoded into. "" = a destination of the frame's own
+	// type carrying the frame's own version; "otherver" = a versioned destination whose GetVersion() differs from
+	// the version in the frame; "plain" = the unversioned message type (for a frame written from a versioned message).
+	Dest []string `json:"dest,omitempty"`
+}
+
+const trailer = "TRAILER!" // follows the frame in the stream ReadHeader reads from
+
+// destFor builds the destination message for frame i.
+func (c Case) destFor(i int, f pbm.Frame, dirty bool) (proto.Message, string) {
+	mode := ""
+	if i < len(c.Dest) {
+		mode = c.Dest[i]
+	}
+	g := f
+	switch mode {
+	case "otherver":
+		if pbm.HasVersionedForm(f.Kind) {
+			g.Versioned, g.Ver = true, []byte("9.9.9-dest")
+			if f.Versioned && string(f.Ver) == string(g.Ver) {
+				g.Ver = []byte("8.8.8-dest")
+			}
+		}
+	case "plain":
+		g.Versioned, g.Ver = false, nil
+	}
+	if dirty {
+		return g.Dirty(), mode
+	}
+	return g.Fresh(), mode
+}
+
+// oddVersion hands the version of a versioned message over as a string that (for about half of the
+// checksums) is a substring of a larger buffer: not 8-aligned, foreign non-zero bytes before and behind
+// it (also behind an EMPTY version). The value is the same.
+func oddVersion(m proto.Message, sum uint64) {
+	switch x := m.(type) {
+	case *pbm.RawV:
+		x.Ver = vk.OddString(x.Ver, sum)
+	case *pbm.BytesV:
+		x.Ver = vk.OddString(x.Ver, sum)
+	case *pbm.StringV:
+		x.Ver = vk.OddString(x.Ver, sum)
+	}
+}
+
+// openReader builds the reader kind of the case over data; consumed is nil where consumption cannot be
+// accounted (buffered standard-library readers read ahead by design).
+func openReader(kind string, sizes []int, data []byte) (r io.Reader, consumed func() int) {
+	for _, k := range pbm.StdReaders {
+		if k == kind {
+			// standard-library reader types (implementations sometimes special-case them)
+			return pbm.WrapReader(kind, data), nil
+		}
+	}
+	if kind == "attoreader" {
+		cr := &pbm.CountingReader{R: iohelper.AtToReader(bytes.NewReader(data), 0)}
+		return cr, func() int { return cr.Consumed }
+	}
+	cr := pbm.NewChunkReader(data, kind, sizes)
+	return cr, func() int { return cr.Consumed }
 }
 
 var checker = &vk.Checker[Case]{
 	ID: "C06",
-	Rule: "streams of 1..6 frames x message kinds (real protobuf BytesValue/StringValue/Int64Value/Empty and a legacy Marshal/Unmarshal message, each also versioned where it can carry a version) x versions of 0..16 bytes not ending in NUL (interior NULs, '', '1.0.0', 16 bytes boosted) x payload lengths {0,1,2,31,32,33,127,128,...,16383,16384, up to 64 KiB thorough} " +
-		"x sink {bytes.Buffer, iohelper.AtToWriter} x reader {whole, 1 byte per Read, drawn chunk sizes, data together with io.EOF, (0,nil) reads, iohelper.AtToReader, and the standard-library reader types bufio.Reader (default and 16-byte buffer), bytes.Reader, bytes.Buffer, strings.Reader, io.LimitReader, iotest.DataErrReader, iotest.HalfReader}; every other frame is decoded into a destination that already holds other content. Oracle: hand-written wire encoder (version NUL-padded to 16 | LE64(32) | LE64(len body) | body; protobuf bodies encoded by hand, self-tested against the protobuf library) and a stream model: " +
-		"bytes appended == expected, n == len == Size == HeaderSize+len(body), ReadHeader == (32,{ver,32,len body}); the k-th Unmarshal returns the k-th message, its version, n == frame length, cumulative consumption == sum of frame lengths (never reads into the next frame), then io.EOF with n=0. " +
+	Rule: "streams of 1..6 frames x message kinds (real protobuf BytesValue/StringValue/Int64Value/Empty and a legacy Marshal/Unmarshal message, each also versioned where it can carry a version) x versions of 0..16 bytes not ending in NUL (interior NULs, '', '1.0.0', 16 bytes boosted; handed over half of the time as a substring at an odd address with foreign bytes around it) x payload lengths {0,1,2,31,32,33,127,128,...,16383,16384, up to 64 KiB thorough} and (1 frame in 10) a log-uniform magnitude up to 1 MiB (2 MiB thorough) or a multiple of a round piece size (512, 1000, 4096, 10000, 32768, 65536, 100000 ... 2^20) -+ the header; the grid sweeps every octave 16 KiB .. 1 MiB (8 MiB thorough): 2^k and 3*2^(k-1) -33/-32/-31/-1/0/+1, keyed lengths in between, decimal round numbers, and 2 MiB " +
+		"x sink {bytes.Buffer, iohelper.AtToWriter} x reader {whole, 1 byte per Read, drawn chunk sizes (list and log-uniform 1..128 KiB), data together with io.EOF, (0,nil) reads, iohelper.AtToReader, and the standard-library reader types bufio.Reader (default and 16-byte buffer), bytes.Reader, bytes.Buffer, strings.Reader, io.LimitReader, iotest.DataErrReader, iotest.HalfReader}; every other frame is decoded into a destination that already holds other content; half of the destinations carry a version of their own that differs from the frame's, or are of the unversioned type. Oracle: hand-written wire encoder (version NUL-padded to 16 | LE64(32) | LE64(len body) | body; protobuf bodies encoded by hand, self-tested against the protobuf library) and a stream model: " +
+		"bytes appended == expected, n == len == Size == HeaderSize+len(body), ReadHeader through the same reader kind == (32,{ver,32,len body}) taking exactly 32 bytes; the k-th Unmarshal returns the k-th message, the version written into the frame (whatever the destination says), n == frame length, cumulative consumption == sum of frame lengths (never reads into the next frame), then io.EOF with n=0. " +
 		"Non-trivial: >= 2 frames or a body length other than 32, read with a non-'whole' chunking. Distinct by hash of the case.",
 	Check:    check,
 	Classify: classify,
@@ -57,10 +119,15 @@ func check(c Case) *vk.Failure {
 	}
 	var stream []byte
 	var lens []int
+	pbs := make([]pbm.Frame, len(c.Frames))
 	for i, fr := range c.Frames {
-		f := fr.PB()
+		pbs[i] = fr.PB()
+	}
+	for i := range c.Frames {
+		f := pbs[i]
 		want := f.Wire()
 		msg := f.Message()
+		oddVersion(msg, vk.Hash64(f.Ver)+uint64(i)*977+uint64(len(f.Payload)))
 		var n int64
 		var err error
 		if fl := vk.Try(fmt.Sprintf("frame %d: Marshal(%s, %d payload bytes, ver %q)", i, f.Kind, len(f.Payload), f.Ver), func() { n, err = pbcmpl.Marshal(sink, msg) }); fl != nil {
@@ -81,52 +148,38 @@ func check(c Case) *vk.Failure {
 		if fl := vk.Try("Size/HeaderSize", func() { sz, hs = pbcmpl.Size(msg), pbcmpl.HeaderSize(msg) }); fl != nil {
 			return fl
 		}
-		if hs != 32 || sz != len(want) || sz != hs+len(f.Body()) {
-			return vk.Failf("size", "frame %d (%s): HeaderSize=%d Size=%d, frame has %d bytes (body %d)", i, f.Kind, hs, sz, len(want), len(f.Body()))
+		blen := len(want) - 32 // want = 32 header bytes | hand-encoded body
+		if hs != 32 || sz != len(want) || sz != hs+blen {
+			return vk.Failf("size", "frame %d (%s): HeaderSize=%d Size=%d, frame has %d bytes (body %d)", i, f.Kind, hs, sz, len(want), blen)
 		}
-		// ReadHeader on the frame
+		// ReadHeader on the frame (followed by other bytes), through the reader kind of the case: it reports the
+		// header and takes exactly the 32 header bytes from the stream, however the reader chunks them
+		hr, hconsumed := openReader(c.Reader, c.Sizes, append(append(make([]byte, 0, len(want)+len(trailer)), want...), trailer...))
 		var hn int64
 		var h pbcmpl.Header
-		if fl := vk.Try("ReadHeader", func() { hn, h, err = pbcmpl.ReadHeader(bytes.NewReader(want)) }); fl != nil {
+		if fl := vk.Try(fmt.Sprintf("ReadHeader (%s reader)", c.Reader), func() { hn, h, err = pbcmpl.ReadHeader(hr) }); fl != nil {
 			return fl
 		}
 		if err != nil || hn != 32 || h == nil {
-			return vk.Failf("readheader", "frame %d: ReadHeader returned (%d, %v, %v)", i, hn, h, err)
+			return vk.Failf("readheader", "frame %d (%s reader): ReadHeader returned (%d, %v, %v)", i, c.Reader, hn, h, err)
 		}
-		if h.GetVersion() != f.WantVersion() || h.GetHeaderSize() != 32 || h.GetBodySize() != int64(len(f.Body())) {
-			return vk.Failf("readheader", "frame %d: ReadHeader reports version %q header %d body %d, want %q 32 %d", i, h.GetVersion(), h.GetHeaderSize(), h.GetBodySize(), f.WantVersion(), len(f.Body()))
+		if hconsumed != nil && hconsumed() != 32 {
+			return vk.Failf("readheader-consumption", "frame %d (%s reader): ReadHeader took %d bytes from the stream, the header has 32", i, c.Reader, hconsumed())
+		}
+		if h.GetVersion() != f.WantVersion() || h.GetHeaderSize() != 32 || h.GetBodySize() != int64(blen) {
+			return vk.Failf("readheader", "frame %d: ReadHeader reports version %q header %d body %d, want %q 32 %d", i, h.GetVersion(), h.GetHeaderSize(), h.GetBodySize(), f.WantVersion(), blen)
 		}
 		stream = append(stream, want...)
 		lens = append(lens, len(want))
 	}
 
 	// read back
-	var r io.Reader
-	var consumed func() int
-	isStd := false
-	for _, k := range pbm.StdReaders {
-		isStd = isStd || k == c.Reader
-	}
-	switch {
-	case c.Reader == "attoreader":
-		cr := &pbm.CountingReader{R: iohelper.AtToReader(bytes.NewReader(stream), 0)}
-		r, consumed = cr, func() int { return cr.Consumed }
-	case isStd:
-		// standard-library reader types (implementations sometimes special-case them); buffered ones read
-		// ahead by design, so consumption is only accounted for the unbuffered ones
-		r = pbm.WrapReader(c.Reader, stream)
-		consumed = nil
-	default:
-		cr := pbm.NewChunkReader(stream, c.Reader, c.Sizes)
-		r, consumed = cr, func() int { return cr.Consumed }
-	}
+	r, consumed := openReader(c.Reader, c.Sizes, stream)
 	total := 0
-	for i, fr := range c.Frames {
-		f := fr.PB()
-		msg := f.Fresh()
-		if (i+len(c.Frames)+len(f.Payload))%2 == 1 {
-			msg = f.Dirty() // a destination that already holds other content (reused across frames)
-		}
+	for i := range c.Frames {
+		f := pbs[i]
+		// every other destination already holds other content (reused across frames)
+		msg, dest := c.destFor(i, f, (i+len(c.Frames)+len(f.Payload))%2 == 1)
 		var n int64
 		var ver string
 		var err error
@@ -144,7 +197,7 @@ func check(c Case) *vk.Failure {
 			return vk.Failf("consumption", "frame %d (%s reader): %d bytes consumed from the stream after this call, frames so far have %d", i, c.Reader, consumed(), total)
 		}
 		if ver != f.WantVersion() {
-			return vk.Failf("version", "frame %d: Unmarshal reported version %q, want %q", i, ver, f.WantVersion())
+			return vk.Failf("version", "frame %d (destination %q): Unmarshal reported version %q, the frame was written with %q", i, dest, ver, f.WantVersion())
 		}
 		if ok, s := f.SameContent(msg); !ok {
 			return vk.Failf("message", "frame %d (%s): decoded content %s differs from what was marshalled (%d payload bytes %x / int %d)", i, f.Kind, clipS(s), len(f.Payload), clip(f.Payload), f.Int)
@@ -153,7 +206,7 @@ func check(c Case) *vk.Failure {
 	// after the last frame: clean EOF
 	var n int64
 	var err error
-	last := c.Frames[len(c.Frames)-1].PB()
+	last := pbs[len(pbs)-1]
 	if fl := vk.Try("Unmarshal at end of stream", func() { n, _, err = pbcmpl.Unmarshal(r, last.Fresh()) }); fl != nil {
 		return fl
 	}
@@ -161,6 +214,33 @@ func check(c Case) *vk.Failure {
 		return vk.Failf("end-of-stream", "Unmarshal after the last frame returned (n=%d, err=%v), want (0, cause io.EOF)", n, err)
 	}
 	return nil
+}
+
+func varintLen(v int) int {
+	n := 1
+	for v >= 0x80 {
+		v >>= 7
+		n++
+	}
+	return n
+}
+
+// bodyLen is the length of the encoded body, computed from the case without expanding the payload.
+func bodyLen(fr Frame) int {
+	n := len(fr.Payload)
+	if n == 0 {
+		n = fr.FillLen
+	}
+	switch fr.Kind {
+	case "raw":
+		return n
+	case "bytes", "string":
+		if n == 0 {
+			return 0
+		}
+		return 1 + varintLen(n) + n
+	}
+	return len(fr.PB().Body())
 }
 
 func clip(b []byte) []byte {
@@ -180,9 +260,14 @@ func clipS(s string) string {
 func classify(c Case) (bool, []string) {
 	labels := []string{"sink:" + c.Sink, "reader:" + c.Reader, fmt.Sprintf("frames:%d", min(len(c.Frames), 3))}
 	other := false
-	for _, fr := range c.Frames {
-		f := fr.PB()
+	for i, f := range c.Frames {
 		labels = append(labels, "kind:"+f.Kind)
+		if i < len(c.Dest) && c.Dest[i] != "" {
+			labels = append(labels, "dest:"+c.Dest[i])
+			if c.Dest[i] == "otherver" && pbm.HasVersionedForm(f.Kind) || c.Dest[i] == "plain" && f.Versioned {
+				labels = append(labels, "dest:version-differs-from-frame")
+			}
+		}
 		if f.Versioned {
 			labels = append(labels, "versioned")
 			if len(f.Ver) == 16 {
@@ -195,7 +280,7 @@ func classify(c Case) (bool, []string) {
 				labels = append(labels, "ver:interior-nul")
 			}
 		}
-		bl := len(f.Body())
+		bl := bodyLen(f)
 		switch {
 		case bl == 0:
 			labels = append(labels, "body:0")
@@ -205,6 +290,17 @@ func classify(c Case) (bool, []string) {
 			labels = append(labels, "body:128-16383")
 		default:
 			labels = append(labels, "body:>=16384")
+			switch {
+			case bl < 1<<17:
+				labels = append(labels, "body:16KiB-128KiB")
+			case bl < 1<<20:
+				labels = append(labels, "body:128KiB-1MiB")
+			default:
+				labels = append(labels, "body:>=1MiB")
+			}
+			if bl%(1<<15) == 0 {
+				labels = append(labels, "body:multiple-of-32KiB")
+			}
 		}
 		if bl != 32 {
 			other = true
@@ -232,7 +328,15 @@ func genCase(t *rapid.T) Case {
 	c := Case{}
 	maxPayload := vk.Pick(17000, 65536)
 	for i := 0; i < nf; i++ {
-		c.Frames = append(c.Frames, pbm.GenFrame(t, maxPayload))
+		if gen.Chance(t, 1, 10, "long") {
+			// lengths without holes up to 1 MiB (2 MiB thorough): log-uniform magnitude, multiples of round piece sizes
+			c.Frames = append(c.Frames, pbm.GenLongFrame(t, vk.Pick(1<<20, 2<<20)))
+		} else {
+			c.Frames = append(c.Frames, pbm.GenFrame(t, maxPayload))
+		}
+		// half of the destinations carry the frame's own version (as a caller that knows what it reads would),
+		// the others a different one or none
+		c.Dest = append(c.Dest, []string{"", "", "otherver", "plain"}[gen.Uniform(t, 4, "dest")])
 	}
 	c.Sink = []string{"buffer", "attowriter"}[gen.Uniform(t, 2, "sink")]
 	c.Reader = []string{"whole", "one", "sizes", "sizes", "eofdata", "zero", "attoreader"}[gen.Uniform(t, 7, "reader")]
@@ -242,7 +346,11 @@ func genCase(t *rapid.T) Case {
 	if c.Reader == "sizes" || c.Reader == "eofdata" || c.Reader == "zero" {
 		k := 1 + gen.Uniform(t, 5, "nsizes")
 		for i := 0; i < k; i++ {
-			c.Sizes = append(c.Sizes, []int{1, 2, 3, 7, 15, 16, 17, 31, 32, 33, 64, 1000}[gen.Uniform(t, 12, "size")])
+			if gen.Chance(t, 1, 2, "size.log") {
+				c.Sizes = append(c.Sizes, 1+pbm.GenLogLen(t, 1<<17, "size.l")) // no hole between 64 and the largest bodies
+			} else {
+				c.Sizes = append(c.Sizes, []int{1, 2, 3, 7, 15, 16, 17, 31, 32, 33, 64, 1000}[gen.Uniform(t, 12, "size")])
+			}
 		}
 	}
 	return c
@@ -272,6 +380,23 @@ func TestGrid(t *testing.T) {
 			checker.Run(t, Case{Frames: []Frame{{Kind: "raw", Payload: b}, small, {Kind: "bytes", Payload: b}, small}, Sink: "buffer", Reader: "sizes", Sizes: []int{1000, 7, 4096}})
 		}
 	}
+	// every octave from 16 KiB to 1 MiB (8 MiB thorough): 2^k and 3*2^(k-1), each -33/-32/-31/-1/0/+1 (body alone and
+	// header+body a whole multiple of 16 KiB, 32 KiB, 64 KiB ...), keyed lengths inside every half octave and the
+	// decimal round numbers; the same length as a legacy body and as the BODY of a protobuf bytes message
+	sweep := append(pbm.LenSweep(14, vk.Pick(uint(20), uint(23)), 6), 1<<21-32, 1<<21, 1<<21+1)
+	for i, n := range sweep {
+		rd := []struct {
+			kind  string
+			sizes []int
+		}{{"sizes", []int{1000, 7, 4096}}, {"whole", nil}, {"sizes", []int{32768}}, {"bufio", nil}, {"eofdata", []int{65536, 1}}, {"attoreader", nil}, {"zero", []int{16384, 100000}}}[i%7]
+		pl := max(n-7, 1) // bytes payload whose body (tag, varint, payload) has n bytes, or the next possible body length
+		for 1+varintLen(pl)+pl < n {
+			pl++
+		}
+		small := Frame{Kind: "bytes", Payload: []byte("next")}
+		checker.Run(t, Case{Frames: []Frame{{Kind: "raw", FillLen: n, FillKey: vk.U64(n)}, small, {Kind: "bytes", FillLen: pl, FillKey: vk.U64(n) + 1, Versioned: i%2 == 0, Ver: []byte("1.2.3")}, small},
+			Sink: []string{"buffer", "attowriter"}[i/7%2], Reader: rd.kind, Sizes: rd.sizes, Dest: []string{"", "", []string{"", "otherver", "plain"}[i%3], ""}})
+	}
 	big := make([]byte, 2<<20+4096+5)
 	for i := range big {
 		big[i] = byte(vk.Mix(uint64(i/8)+99) >> (8 * uint(i%8)))
@@ -292,6 +417,16 @@ func TestGrid(t *testing.T) {
 						f.Payload = bytes.Repeat([]byte{byte('a' + n%26)}, n)
 					}
 					checker.Run(t, Case{Frames: []Frame{f, f}, Sink: "buffer", Reader: rd, Sizes: []int{3, 32, 5}})
+				}
+				// the destination's own version must not leak into what Unmarshal reports
+				f := Frame{Kind: kind, Versioned: vi > 0, Ver: ver}
+				if kind == "int64" {
+					f.Int = int64(n) * 1000003
+				} else if kind != "empty" {
+					f.Payload = bytes.Repeat([]byte{byte('a' + n%26)}, n)
+				}
+				for _, d := range [][]string{{"otherver", "plain"}, {"plain", "otherver"}, {"otherver", ""}} {
+					checker.Run(t, Case{Frames: []Frame{f, f}, Sink: "buffer", Reader: "sizes", Sizes: []int{3, 32, 5}, Dest: d})
 				}
 			}
 		}
